@@ -419,8 +419,9 @@ Proof. exact ws_facts. Qed.
    same answer for the rounds both have ([tables_agree]) assign the same round and the same witness flag to every
    event they share, and strongly-see (with any set) between shared events has the same value.  In both fork
    witnesses above the tables ARE equal and the rounds differ: there the distance bound is violated on both
-   nodes (C01_dynamic_fork_violates_bound).  The step from here to the blocks is NOT true for this code: fame is
-   decided with the super-majority of the NEXT round's set (C01_agreement_under_gap_refuted below);
+   nodes (C01_dynamic_fork_violates_bound).  The step from here to the blocks (fame, round-received, frames with
+   per-round sets, and the induction that discharges [tables_agree]) is NOT proved; before fix 05eda0b it was
+   false (C01_fame_threshold_regression below: fame was decided with the super-majority of the NEXT round's set).
    C01_agreement stays a static-membership theorem. *)
 Theorem C01_rounds_agree_dynamic : forall all self1 self2 genesis1 genesis2 oracle1 oracle2 ops1 ops2 x e1 e2,
   ids_determine all -> self1 <> -1 -> self2 <> -1 ->
@@ -466,27 +467,28 @@ Example C01_dynamic_fork_violates_bound :
   peersets (hrun ia (map HInsert ws_all)) = peersets (hrun ib (map HInsert ws_all')).
 Proof. vm_compute. split; reflexivity. Qed.
 
-(* REFUTED EVEN UNDER THE DISTANCE BOUND: A SECOND FORK, INDEPENDENT OF THE WINDOW.  DecideFame decides at a round-j
-   witness with the super-majority of the peer-set of round j (hashgraph.go `t >= jPeerSet.SuperMajority()`), but
-   the votes it counts are those of the round j-1 witnesses (up to |set(j-1)| of them, strongly-seen with set(j-1)).
-   When the set shrinks from 5 to 4 at round j (a leave accepted 6 rounds earlier) three equal votes out of five
-   decide: one round-7 witness counts 3 no / 2 yes and decides NOT famous; the three others count 2 no / 2 yes
-   (tie = yes) and a round-8 witness decides FAMOUS with their 3 yes.  64 events, 5 validators, every coin bit
-   true, both nodes respect the distance bound and the window, same table, same rounds on both; node B receives
-   one event (60) later than node A.  Proofs/ShrinkWitness.v; reproduced on two real cores by harness/cmd/winfork
-   on corpus/C01-shrink-fork.json (KNOWN_FINDINGS C01-fame-threshold-after-shrink). *)
-Definition C01_agreement_under_gap_statement : Prop :=
-  forall genesis all self1 self2 oracle1 oracle2 ops1 ops2 k d1 d2,
-    ids_determine all -> sigkeys_determine all -> fork_free all ->
-    self1 <> -1 -> self2 <> -1 ->
-    Forall (hop_ok all) ops1 -> Forall (hop_ok all) ops2 ->
-    gap_runb (init_hg self1 genesis oracle1) ops1 = true -> gap_runb (init_hg self2 genesis oracle2) ops2 = true ->
-    let st1 := hrun (init_hg self1 genesis oracle1) ops1 in
-    let st2 := hrun (init_hg self2 genesis oracle2) ops2 in
-    nth_error (delivered st1) k = Some d1 -> nth_error (delivered st2) k = Some d2 -> b_txs d1 = b_txs d2.
-Theorem C01_agreement_under_gap_refuted : ~ C01_agreement_under_gap_statement.
-Proof. exact sh_agreement_refuted. Qed.
-Print Assumptions C01_agreement_under_gap_refuted.
+(* REGRESSION WITNESS for fix 05eda0b (known finding C01-fame-threshold-after-shrink): A SECOND FORK UNDER
+   DYNAMIC MEMBERSHIP, INDEPENDENT OF THE WINDOW, in the code before the fix.  DecideFame decided at a round-j witness
+   with the super-majority of the peer-set of round j (`t >= jPeerSet.SuperMajority()`), but the votes it counts are
+   those of the round j-1 witnesses (up to |set(j-1)| of them, strongly-seen with set(j-1)).  When the set shrinks from
+   5 to 4 at round j (a leave accepted 6 rounds earlier) three equal votes out of five decided: one round-7 witness
+   counts 3 no / 2 yes and decided NOT famous; the three others count 2 no / 2 yes (tie = yes) and a round-8 witness
+   decides FAMOUS with their 3 yes.  64 events, 5 validators, every coin bit true, both nodes respect the distance
+   bound and the window, same table, same rounds on both; node B receives one event (60) later than node A.
+   [fame_old] = the voting loop with the pre-fix quorum (Proofs/ShrinkWitness.v, used only there): "not famous" on A's
+   view after event 60, "famous" on B's view (everything but 60); before the fix the blocks of index 4 differed on two
+   real cores (corpus/C01-shrink-fork.json, replayed on every run: it must not fork any more).  With the fix (quorum =
+   super-majority of the voters' set, round j-1; Model/HgImpl.v [vparams_of]) event 60 does not decide and both nodes
+   decide "famous" at 62; the recorded history gives the same six blocks on both nodes. *)
+Example C01_fame_threshold_regression :
+  let a60 := hrun (init_hg 0 sh_g []) (map HInsert (firstn 61 sh_all)) in
+  let b63 := hrun (init_hg 1 sh_g []) (map HInsert (firstn 63 sh_all')) in
+  nth_error sh_all 60 = Some (sh_ev (60, 0, 11, 44, 59)) /\ nth_error sh_all' 63 = Some (sh_ev (60, 0, 11, 44, 59)) /\
+  failed a60 = false /\ failed b63 = false /\ last_round a60 = 7 /\ last_round b63 = 8 /\
+  fame_old a60 35 5 = Some (Some false) /\ fame_old b63 35 5 = Some (Some true) /\
+  fame_of a60 35 5 = Some None /\ fame_of b63 35 5 = Some (Some true) /\
+  fame_of (hrun (init_hg 0 sh_g []) (map HInsert sh_all)) 35 5 = Some (Some true).
+Proof. exact sh_regression. Qed.
 
 Example C01_shrink_fork_witness :
   forallb e_coin sh_all = true /\
@@ -497,11 +499,11 @@ Example C01_shrink_fork_witness :
   failed sa = false /\ failed sb = false /\
   peersets sa = peersets sb /\ map (fun p => (fst p, length (snd p))) (peersets sa) = [(0, 5%nat); (7, 4%nat)] /\
   map (rnd sa) (zseq 0 64) = map (rnd sb) (zseq 0 64) /\
-  fame_row sa 5 = [(35, TFalse); (36, TTrue); (37, TTrue); (38, TTrue); (39, TTrue)] /\
+  fame_row sa 5 = [(35, TTrue); (36, TTrue); (37, TTrue); (38, TTrue); (39, TTrue)] /\
   fame_row sb 5 = [(35, TTrue); (36, TTrue); (37, TTrue); (38, TTrue); (39, TTrue)] /\
-  map (fun b => (b_index b, b_rr b, b_txs b)) (firstn 4 (delivered sa)) = map (fun b => (b_index b, b_rr b, b_txs b)) (firstn 4 (delivered sb)) /\
-  option_map (fun b => (b_index b, b_rr b, b_txs b)) (nth_error (delivered sa) 4) = Some (4, 5, [28; 29; 30; 31; 32; 33; 34]) /\
-  option_map (fun b => (b_index b, b_rr b, b_txs b)) (nth_error (delivered sb) 4) = Some (4, 5, [28; 29; 30; 31; 32; 33]).
+  length (delivered sa) = 6%nat /\
+  map (fun b => (b_index b, b_rr b, b_txs b)) (delivered sa) = map (fun b => (b_index b, b_rr b, b_txs b)) (delivered sb) /\
+  option_map (fun b => (b_index b, b_rr b, b_txs b)) (nth_error (delivered sa) 4) = Some (4, 5, [28; 29; 30; 31; 32; 33]).
 Proof. exact sh_facts. Qed.
 
 (* non-vacuity on the two nodes above: node 1 (17 events) has delivered 6 blocks, node 0 (24 events) 9;
